@@ -4,7 +4,10 @@ C03 — The receive path raises only library errors, whatever arrives on the wir
 `recv` (Model/Handlers.lean) is one iteration of `Gateway.listen` on a line delivered by the
 transport.  In the model a non-library exception is the outcome `.error (.foreign c)`; the
 theorems say it cannot occur, for every line, configuration, local time, write-fault schedule and
-every state satisfying the reachable-state invariant `SbufOK` — using the generated handler
+every state satisfying the reachable-state invariant `SbufOK` — except for the `CancelledError` of
+a cancellation that the environment delivers while the task waits in a transport write
+(`Fault.cancel`), which is not the library's to catch and after which the gateway is still in a
+good state — using the generated handler
 chains, `message_buffer=` flags and `except` tuples (so narrowing an except clause, dropping a
 conversion's guard or adding an unknown layer breaks these proofs).  The stream transport's own
 read path is C17; the error classes all derive from the library base class by
@@ -26,28 +29,48 @@ def OpOK : Op → Prop
   | .recv _ _ _ => True
   | .send obj _ _ => SendOK obj
 
-/-- **No foreign exception from the receive path**, in any state satisfying the invariant. -/
-theorem recv_lib_only (env : Env) (line : Str) (st : St) (faults : List Bool) (h : SbufOK st) (c : PyExn) :
-    (recv env line { st := st, faults := faults }).1 ≠ .error (.foreign c) :=
-  ((safe_recv env line).run _ h).1 c
+/-- The fault schedule of an operation. -/
+def opFaults : Op → List Fault
+  | .recv _ _ faults => faults
+  | .send _ _ faults => faults
 
-/-- The invariant holds again after the step, also when the step ended in an error: the gateway
-remains usable and the next line is handled by the same `recv` from a good state. -/
-theorem recv_preserves_inv (env : Env) (line : Str) (st : St) (faults : List Bool) (h : SbufOK st) :
+/-- **No foreign exception from the receive path**, in any state satisfying the invariant — with
+the one exception that is not the library's to prevent: if the environment cancels the listening
+task while it waits in a transport write (`Fault.cancel` in the schedule), that `CancelledError`
+propagates.  Nothing else does. -/
+theorem recv_lib_only_or_cancelled (env : Env) (line : Str) (st : St) (faults : List Fault) (h : SbufOK st) (c : PyExn)
+    (hc : (recv env line { st := st, faults := faults }).1 = .error (.foreign c)) :
+    c = .CancelledError ∧ Fault.cancel ∈ faults :=
+  ((safe_recv env line).run _ h).1 c hc
+
+/-- Without a cancellation, whatever the write faults: no non-library exception at all. -/
+theorem recv_lib_only (env : Env) (line : Str) (st : St) (faults : List Fault) (h : SbufOK st)
+    (hf : Fault.cancel ∉ faults) (c : PyExn) :
+    (recv env line { st := st, faults := faults }).1 ≠ .error (.foreign c) :=
+  fun hc => hf (recv_lib_only_or_cancelled env line st faults h c hc).2
+
+/-- The invariant holds again after the step, also when the step ended in an error or was aborted
+by a cancellation: the gateway remains usable and the next line is handled from a good state. -/
+theorem recv_preserves_inv (env : Env) (line : Str) (st : St) (faults : List Fault) (h : SbufOK st) :
     SbufOK (recv env line { st := st, faults := faults }).2.st :=
-  ((safe_recv env line).run _ h).2
+  ((safe_recv env line).run _ h).2.1
 
 theorem sendable_of_range {cmd : Int} (h : cmd ∈ [(0 : Int), 1, 2, 3, 4]) : sendable cmd = true :=
   (commandChains_ok .v14 cmd h).2
 
-theorem send_lib_only (obj : Option Msg) (b : Bool) (st : St) (faults : List Bool) (h : SbufOK st) (ho : SendOK obj)
-    (c : PyExn) : (apiSend obj b { st := st, faults := faults }).1 ≠ .error (.foreign c) := by
-  refine ((safe_apiSend obj b ?_).run _ h).1 c
+theorem send_lib_only_or_cancelled (obj : Option Msg) (b : Bool) (st : St) (faults : List Fault) (h : SbufOK st)
+    (ho : SendOK obj) (c : PyExn) (hc : (apiSend obj b { st := st, faults := faults }).1 = .error (.foreign c)) :
+    c = .CancelledError ∧ Fault.cancel ∈ faults := by
+  refine ((safe_apiSend obj b ?_).run _ h).1 c hc
   intro m hm; subst hm; exact sendable_of_range ho
 
-theorem send_preserves_inv (obj : Option Msg) (b : Bool) (st : St) (faults : List Bool) (h : SbufOK st) (ho : SendOK obj) :
+theorem send_lib_only (obj : Option Msg) (b : Bool) (st : St) (faults : List Fault) (h : SbufOK st) (ho : SendOK obj)
+    (hf : Fault.cancel ∉ faults) (c : PyExn) : (apiSend obj b { st := st, faults := faults }).1 ≠ .error (.foreign c) :=
+  fun hc => hf (send_lib_only_or_cancelled obj b st faults h ho c hc).2
+
+theorem send_preserves_inv (obj : Option Msg) (b : Bool) (st : St) (faults : List Fault) (h : SbufOK st) (ho : SendOK obj) :
     SbufOK (apiSend obj b { st := st, faults := faults }).2.st := by
-  refine ((safe_apiSend obj b ?_).run _ h).2
+  refine ((safe_apiSend obj b ?_).run _ h).2.1
   intro m hm; subst hm; exact sendable_of_range ho
 
 theorem step_inv (st : St) (op : Op) (h : SbufOK st) (ho : OpOK op) : SbufOK (stepOp st op).1 := by
@@ -61,22 +84,41 @@ theorem step_inv (st : St) (op : Op) (h : SbufOK st) (ho : OpOK op) : SbufOK (st
     simp only [stepOp]
     split <;> simp_all
 
-theorem step_lib_only (st : St) (op : Op) (h : SbufOK st) (ho : OpOK op) (c : PyExn) :
-    (stepOp st op).2.out ≠ .error (.foreign c) := by
+theorem step_lib_only_or_cancelled (st : St) (op : Op) (h : SbufOK st) (ho : OpOK op) (c : PyExn)
+    (hc : (stepOp st op).2.out = .error (.foreign c)) : c = .CancelledError ∧ Fault.cancel ∈ opFaults op := by
   cases op with
   | recv env line faults =>
-    have := recv_lib_only env line st faults h c
-    simp only [stepOp]
-    split <;> simp_all
+    have := recv_lib_only_or_cancelled env line st faults h c
+    simp only [stepOp] at hc
+    split at hc <;> simp_all [opFaults]
   | send obj b faults =>
-    have := send_lib_only obj b st faults h ho c
-    simp only [stepOp]
-    split <;> simp_all
+    have := send_lib_only_or_cancelled obj b st faults h ho c
+    simp only [stepOp] at hc
+    split at hc <;> simp_all [opFaults]
+
+theorem step_lib_only (st : St) (op : Op) (h : SbufOK st) (ho : OpOK op) (hf : Fault.cancel ∉ opFaults op) (c : PyExn) :
+    (stepOp st op).2.out ≠ .error (.foreign c) :=
+  fun hc => hf (step_lib_only_or_cancelled st op h ho c hc).2
 
 /-- **Every history.** Starting from a fresh gateway, along any sequence of received lines
-(arbitrary text) and send calls, with arbitrary write faults, no step ends in a non-library
-exception — in particular every step after an error is handled normally. -/
-theorem history_lib_only (ops : List Op) (hops : ∀ op ∈ ops, OpOK op) (st : St) (h : SbufOK st) :
+(arbitrary text) and send calls, with arbitrary write faults and with cancellations of the waiting
+task at arbitrary writes, the only non-library exception a step can end in is the `CancelledError`
+of a cancellation injected in that very step — in particular every step after an error or after a
+cancellation is handled normally. -/
+theorem history_lib_only_or_cancelled (ops : List Op) (hops : ∀ op ∈ ops, OpOK op) (st : St) (h : SbufOK st) :
+    ∀ o ∈ (run st ops).2, ∀ c, o.out = .error (.foreign c) → c = .CancelledError := by
+  induction ops generalizing st with
+  | nil => intro o ho; simp [run] at ho
+  | cons op ops ih =>
+    intro o ho c hc
+    simp only [run, List.mem_cons] at ho
+    rcases ho with rfl | ho
+    · exact (step_lib_only_or_cancelled st op h (hops op (by simp)) c hc).1
+    · exact ih (fun op' h' => hops op' (by simp [h'])) _ (step_inv st op h (hops op (by simp))) o ho c hc
+
+/-- **Every history without cancellations**: no step ends in a non-library exception. -/
+theorem history_lib_only (ops : List Op) (hops : ∀ op ∈ ops, OpOK op) (hf : ∀ op ∈ ops, Fault.cancel ∉ opFaults op)
+    (st : St) (h : SbufOK st) :
     ∀ o ∈ (run st ops).2, ∀ c, o.out ≠ .error (.foreign c) := by
   induction ops generalizing st with
   | nil => intro o ho; simp [run] at ho
@@ -84,8 +126,9 @@ theorem history_lib_only (ops : List Op) (hops : ∀ op ∈ ops, OpOK op) (st : 
     intro o ho c
     simp only [run, List.mem_cons] at ho
     rcases ho with rfl | ho
-    · exact step_lib_only st op h (hops op (by simp)) c
-    · exact ih (fun op' h' => hops op' (by simp [h'])) _ (step_inv st op h (hops op (by simp))) o ho c
+    · exact step_lib_only st op h (hops op (by simp)) (hf op (by simp)) c
+    · exact ih (fun op' h' => hops op' (by simp [h'])) (fun op' h' => hf op' (by simp [h'])) _
+        (step_inv st op h (hops op (by simp))) o ho c
 
 theorem fresh_gateway_inv : SbufOK ({} : St) := SbufOK_init
 
